@@ -345,7 +345,13 @@ pub fn materialize(sc: &Scenario, root: &Path) -> std::io::Result<Case> {
     for (pi, p) in sc.projects.iter().enumerate() {
         let d = root.join(&p.dir);
         std::fs::create_dir_all(&d)?;
-        std::fs::write(d.join("zinoma.yml"), sc.yaml(pi))?;
+        // hand-written documents (`raw_yaml`) may carry `\xNN` escapes for bytes that are not valid UTF-8
+        let text = sc.yaml(pi);
+        if sc.projects[pi].raw_yaml.is_some() {
+            std::fs::write(d.join("zinoma.yml"), simrt::vfs::decode_bytes(&text))?;
+        } else {
+            std::fs::write(d.join("zinoma.yml"), text)?;
+        }
     }
     for f in &sc.files {
         let p = root.join(simrt::vfs::decode_path(&f.path));
